@@ -59,7 +59,8 @@ impl InstanceAnnotations {
 
     pub fn authors(&self) -> Result<impl Iterator<Item = &str>> {
         let authors = self.get("org.ommx.v1.instance.authors")?;
-        Ok(authors.split(','))
+        // An empty list of authors is stored as an empty string, which must not be read back as one unnamed author
+        Ok(authors.split(',').filter(|author| !author.is_empty()))
     }
 
     pub fn set_license(&mut self, license: String) {
@@ -165,7 +166,8 @@ impl ParametricInstanceAnnotations {
 
     pub fn authors(&self) -> Result<impl Iterator<Item = &str>> {
         let authors = self.get("org.ommx.v1.parametric-instance.authors")?;
-        Ok(authors.split(','))
+        // An empty list of authors is stored as an empty string, which must not be read back as one unnamed author
+        Ok(authors.split(',').filter(|author| !author.is_empty()))
     }
 
     pub fn set_license(&mut self, license: String) {
